@@ -240,23 +240,20 @@ func obligationChunks(ob *Obligation, prelude string) []*Script {
 		// satisfiable as soon as one path is: try the first few paths separately
 		var out []*Script
 		step := 1
-		if len(ob.Cases) > 24 {
-			step = len(ob.Cases) / 24
+		if len(ob.Cases) > 8 {
+			step = len(ob.Cases) / 8
 		}
 		for i := 0; i < len(ob.Cases); i += step {
-			sub := &Obligation{Name: ob.Name, Cover: true, Cases: ob.Cases[i : i+1]}
-			out = append(out, obligationScript(sub, prelude))
-			// the same path without its quantified facts (models of quantified formulas are hard to find)
+			// a path is checked on its quantifier-free facts when it has quantified ones
+			// (models of quantified formulas are hard to find); otherwise in full
 			var qf []*Term
 			for _, t := range ob.Cases[i].pc {
 				if !hasQuant(t) {
 					qf = append(qf, t)
 				}
 			}
-			if len(qf) != len(ob.Cases[i].pc) {
-				sub2 := &Obligation{Name: ob.Name, Cover: true, Cases: []obCase{{pc: qf, goal: ob.Cases[i].goal}}}
-				out = append(out, obligationScript(sub2, prelude))
-			}
+			sub := &Obligation{Name: ob.Name, Cover: true, Cases: []obCase{{pc: qf, goal: ob.Cases[i].goal, derived: true}}}
+			out = append(out, obligationScript(sub, prelude))
 		}
 		return out
 	}
